@@ -69,7 +69,10 @@ var varyConfigs = []string{"", "X-A", "X-A, X-B", "X-B, X-A", "x-a", "*", "X-A, 
 	// fields the cache itself adds to a validation request; names that are not tokens / not valid UTF-8
 	"If-None-Match", "If-Modified-Since", "X-A, If-None-Match",
 	// a field line that is not Vary syntax (a stray quote) in front of a "*" line: the "*" still counts
-	"X-A\"|*", "\"|X-A, *", "X-\xe9", "*, X-\xe9", "X-A, x-\xff\xfe"}
+	"X-A\"|*", "\"|X-A, *", "X-\xe9", "*, X-\xe9", "X-A, x-\xff\xfe",
+	// … or in front of a well-formed line: a Vary value is a list of field names, there is no quoted-string in it
+	// that could reach over the comma (let alone over the field line) and swallow the names that follow
+	"X-C\"|X-A", "X-C\"|X-A", "X-C\", X-A", "\"x|X-B, X-A"}
 
 // method tokens are case-sensitive: "get" is an extension method, not GET
 var unsafeMethods = []string{"POST", "PUT", "DELETE", "PATCH", "PROPPATCH", "MKCOL", "FOO", "post", "get", "Get", "gEt", "(empty)"}
